@@ -100,7 +100,7 @@ impl Scenario for SpillUtil {
         }
         let face = Face::draw(rng);
         let regular = rng.chance(12);
-        let (n, ic) = if regular { (*rng.pick(&[4000u32, 4064, 4065, 4100, 6000, 9000, 20_000, 70_000]), *rng.pick(&[2u8, 4, 3, 2, 4, 1])) } else { (n, ic) };
+        let (n, ic) = if regular { (*rng.pick(&[4000u32, 4064, 4065, 4100, 6000, 9000, 16_384, 16_400, 17_000, 20_000, 20_447, 33_000, 70_000]), *rng.pick(&[2u8, 4, 3, 2, 4, 1, 1])) } else { (n, ic) };
         to_value(&SpillCase { n, seed, ic, start, pos: *rng.pick(&[0u32, 0, 1, 64, 127, 5000, 20_000, 40_000]), beyond: if rng.chance(50) { 30_000 } else { 0 }, face, pol: Policy::draw(rng, face == Face::Async), regular })
     }
     fn execute(&self, case: &Value, ctx: &mut Ctx) -> V<()> {
